@@ -11,6 +11,26 @@ BASE_NOTE = ("Trusted base: rustc front end/MIR construction as dumped by engine
              "crates assumed total. ")
 
 CLAIMS = {
+    "C01": dict(
+        category="other",
+        technique="symbolic register-transfer evaluation of every micro-path of the control store (expression trees, NOR networks by truth table) compared structurally with a reference ISA semantics; the evaluator's data-path model is checked against the MIR of the clock-edge pipeline by abstract interpretation with opaque register tags",
+        text=("For every defined first opcode byte and every defined second byte of the two-byte forms (1565 forms) all micro-paths "
+              "from dispatch to the next instruction fetch are enumerated on the micro-CFG (built from Signals::* evaluated per "
+              "control word and IR class) and evaluated as register transfers over symbolic initial registers; the final "
+              "expressions of R0-R3/PC/SP, the bus writes, the operand fetches and the flag rule class (untouched / C,Z,N of the "
+              "result / Z,N of the result / loaded byte / IE only) must equal spec/isa_sem.py, so the write-set is exact. "
+              "Conditional jumps must test the flag their condition names. MUL/DIV (data-dependent loops): write-set of the whole "
+              "routine, carry accumulation discipline of MUL by forward dataflow over the routine (cleared, then only "
+              "carry-holding additions), every addition recorded, Z/N from the delivered product, and the acyclic "
+              "division-by-zero path (0xFF, carry set). Pipeline agreement: stage order of one clock edge, operand provenance of "
+              "the three back-half stages for all 719 (word, register-class) pairs, commit stage, flag bit positions. The ALU "
+              "function shapes (rule of C08) are re-decided here. Every opcode the assembler can emit is a defined form."),
+        note=("Numeric ALU results for all operand values are not decided beyond the shape facts of C08 (dependence sets, pass-through, "
+              "constants, carry classes); MUL/DIV numeric results are not decided, only the carry discipline and the zero-divisor path. "
+              "Instruction sequences: per-instruction effects compose because the comparison covers the complete architectural state "
+              "and the micro-CFG returns to the same fetch word (C15); a dependence on stale scratch registers would appear as an R6/R7 "
+              "symbol in a final expression and is therefore decided."),
+        design="3/C01"),
     "C16": dict(
         category="other",
         technique="abstract evaluation of the Display impls (decoding the compiled format templates) + PEG matching of the printed forms against the grammar + exhaustive lexical-class check",
